@@ -3,3 +3,36 @@
 //! and rebuild" history of tier D observes for `#[pdl("file")]`.
 #![allow(warnings, unused)]
 include!(concat!(env!("TIERD_GEN"), "/derive_mods.rs"));
+
+// ---- the host crate's own scope around the derive modules: helpers whose method names look like the ones
+// generated code calls on byte slices and buffers. They are private to this scope; generated code that
+// sees them (a glob import of the parent scope, a path resolved relative to the call site) reads wrong values.
+#[allow(dead_code)]
+trait VerifPeek {
+    fn get_u8(&self) -> u8 { 1 }
+    fn get_u16(&self) -> u16 { 1 }
+    fn get_u16_le(&self) -> u16 { 1 }
+    fn get_u32(&self) -> u32 { 1 }
+    fn get_u32_le(&self) -> u32 { 1 }
+    fn get_u64(&self) -> u64 { 1 }
+    fn get_u64_le(&self) -> u64 { 1 }
+    fn get_uint(&self, _n: usize) -> u64 { 1 }
+    fn get_uint_le(&self, _n: usize) -> u64 { 1 }
+    fn remaining(&self) -> usize { 1 }
+    fn has_remaining(&self) -> bool { true }
+}
+impl VerifPeek for [u8] {}
+#[allow(dead_code)]
+trait VerifSink {
+    fn put_u8(&self, _v: u8) {}
+    fn put_u16(&self, _v: u16) {}
+    fn put_u16_le(&self, _v: u16) {}
+    fn put_slice(&self, _v: &[u8]) {}
+}
+impl VerifSink for Vec<u8> {}
+#[allow(dead_code)]
+type Result<T> = std::result::Result<T, ()>;
+#[allow(dead_code)]
+struct Private;
+#[allow(dead_code)]
+const MAX: usize = 0;
